@@ -5,14 +5,15 @@ from ..extract import memo as xmemo
 
 
 def _text(rng, n):
-    alph = ["a", "b", "z", " ", "é", "ß", "ж", "中", "𝄞", "\n", "0", "_", "-"]
+    alph = ["a", "b", "z", " ", "é", "ß", "ж", "中", "𝄞", "\n", "0", "_", "-", "\x00", "\x7f", "\x80", "ÿ", "\u2028", "\ufeff", "😀", "=", "\r"]
     return "".join(rng.choice(alph) for _ in range(n)).encode()
 
 
-def build_memo(code, curt, mid, text, ki, zb, nb):
-    """the genuine grams of one memo with body sizes zb (zeroth) / nb (others), by the reference builder"""
+def build_memo(code, curt, mid, text, ki, zb, nb, vk=None):
+    """the genuine grams of one memo with body sizes zb (zeroth) / nb (others), by the reference builder; signed with key ki,
+    claiming the vid of key vk (default: its own)"""
     parts = [text[:zb]] + [text[i:i + nb] for i in range(zb, len(text), nb)]
-    gs = [A.ref_gram(code, curt, mid, len(parts), parts[0], ki=ki)]
+    gs = [A.ref_gram(code, curt, mid, len(parts), parts[0], ki=ki, vid_in_gram=A.key(vk)["vid"] if vk is not None and code in A.SIGNED else None)]
     for n, b in enumerate(parts[1:], 1):
         gs.append(A.ref_gram(A.PAIR[code], curt, mid, n, b, ki=ki))
     return gs
@@ -33,18 +34,23 @@ class C22(core.Check):
                   "state, any history: every delivered memo has a vid and its text is a concatenation of bodies each lying in a signed part that passed V under "
                   "that vid; same for every stored gram; needs V [] _ _ != ok), authic_requires_verified, tampered_dropped (a datagram whose signed pair verifies "
                   "under no vid leaves the receiver unchanged) with signed_pair_determines_gram (so every single-byte mutation has a different signed pair: "
-                  "dropped under unforgeability). Nothing is _partial; unforgeability of ed25519 and the internals of Memoer.verify are hypotheses, "
+                  "dropped under unforgeability). WHICH KEY (Memoer.verify itself is now modelled, verifyM over the receiver's keep; only Base64 material "
+                  "decoding and the ed25519 check stay parameters): verify_key_authority (acceptance means the check passed under the key embedded in the id "
+                  "for non-transferable 'B' ids ONLY, otherwise under the key the keep holds for the id), verify_unknown_id_rejected ('D'/'E' id absent from "
+                  "the keep), verify_retired_key_rejected (rotated id: a signature good only under the embedded, retired key is refused), verifyM_safe, "
+                  "authentic_keyed (authentic with the key spelled out). Nothing is _partial; unforgeability of ed25519 and the internals of Memoer.verify are hypotheses, "
                   "exercised by the correspondence with real pysodium.")
-    level_note = ("Trusted: Lean kernel + propext/Classical.choice/Quot.sound; translator harness/extract/memo.py; Memoer.verify (pysodium, stdlib base64) is a "
-                  "parameter of the model: its outcome per (vid, sig, ser) is taken from an independent reference implementation in the harness and the "
-                  "real run is compared against it by the correspondence; CPython utf-8 decoding modelled by a validity predicate. "
+    level_note = ("Trusted: Lean kernel + propext/Classical.choice/Quot.sound; translator harness/extract/memo.py; the decoding of qualified Base64 material and the ed25519 check inside "
+                  "Memoer.verify are parameters of the model, tabulated by an independent reference in the harness (stdlib base64 + pysodium) for every "
+                  "(vid, sig, ser) the real run asked about and every candidate key; the key choice / keep lookup is model code compared with the real run; CPython utf-8 decoding modelled by a validity predicate. "
                   "Pre-finding F36 (seven escaping exception classes/sites) reproduced and repaired (fix/memo aaacb0a, 1ba99d0).")
     quick_n = 700
     thorough_n = 12000
-    rule = ("cases: 1..3 genuine memos (4 zeroth codes, both encodings, keys with 'B' and 'D' vids) built by the reference builder, delivered in 1..4 "
+    rule = ("service calls are serviceAllRx / service() / serviceAllRxOnce / serviceReceives+serviceRxGrams with close / reopen in between, on a Memoer, an AuthMemoer or the real udp / uxd PeerMemoer.receive over a scripted socket, next to a neighbour instance; cases: 1..3 genuine memos (4 zeroth codes, both encodings, keys with 'B' and 'D' vids) built by the reference builder, delivered in 1..4 "
             "batches with one of: single-byte mutation at a random/structural position, truncation, structured malformed grams (unknown/ack codes, bad "
             "Base64 digits, non-UTF-8 code/mid/vid/body, gram number >= count, count 0, wrong-key / swapped / foreign signatures, unsigned grams when "
-            "authic, attacker zeroth gram first, empty datagram), random bytes (biased to pass wiff).  non-trivial = at least one datagram is not a "
+            "authic, attacker zeroth gram first, empty datagram), random bytes (biased to pass wiff); signers include strangers (a 'D' id absent "
+            "from the keep) and a ROTATED 'D' identifier (keep holds key 6 for the id of key 7): memos signed with the retired key, and with the current one.  non-trivial = at least one datagram is not a "
             "genuine gram; distinct by request line")
     trusted_base = ["translator harness/extract/memo.py (Sizes, codexes, except-clause class sets)",
                     "correspondence harness/props/C22.py: compiled model vs real Memoer (echo transport, real pysodium)",
@@ -83,6 +89,9 @@ class C22(core.Check):
             ("rx", True, [[(g, 2) for g in sgb]], "genuine signed b2, D vid"),
             ("rx", True, [[(sg[0], 1), (b"", 1), (sg[0], 1)], []], "empty datagram stops the loop"),
             ("rx", True, [[(z, 1), (A.ref_gram("bAAB", False, m, 1, b"cd"), 1)]], "unsigned when authic"),
+            ("rx", True, [[(g, 1) for g in build_memo("bAAC", False, A.mid_of(8), b"retired key signs", 7, 6, 50)]], "rotated 'D' vid, retired key: rejected"),
+            ("rx", True, [[(g, 1) for g in build_memo("bAAC", False, A.mid_of(9), b"current key signs", 6, 6, 50, 7)]], "rotated 'D' vid, current key: delivered"),
+            ("rx", True, [[(g, 1) for g in build_memo("bAAG", True, A.mid_of(10), b"stranger D vid", 5, 6, 50)]], "'D' vid absent from the keep: rejected"),
         ]
 
     def exhaustive(self, tier):
@@ -114,10 +123,12 @@ class C22(core.Check):
             for j in range(rng.choice([1, 1, 2, 3])):
                 code = rng.choice(A.ZCODES if not authic or rng.random() < 0.15 else ["bAAC", "bAAG"])
                 curt = rng.random() < 0.5
-                ki = rng.randrange(0, 6) if code in A.SIGNED else None      # keys 4, 5 are not in the keep (5 has a 'D' vid)
+                ki = rng.choice([0, 1, 2, 3, 4, 5, 6, 7, 7]) if code in A.SIGNED else None   # 4, 5 strangers (5: 'D' vid not in the keep);
+                #   7: signs with the RETIRED key of the rotated 'D' identifier; 6: the current key of that identifier (claims vid 7 below)
                 text = _text(rng, rng.choice([1, 2, 5, 12, 30, rng.randrange(1, 120)]))
-                zb, nb = rng.choice([1, 2, 3, 7, 20, 200]), rng.choice([1, 2, 5, 9, 33, 200])
-                memos.append((build_memo(code, curt, A.mid_of(rng.randrange(1, 50)), text, ki, zb, nb), rng.randrange(1, 4), code, curt, ki))
+                zb, nb = rng.choice([0, 1, 2, 3, 7, 20, 200]), rng.choice([1, 2, 5, 9, 33, 200])      # zb = 0: a zeroth gram with an empty body
+                vk = A.ROTATED[0] if (ki == A.ROTATED[1] and rng.random() < 0.7) else None   # current key signing for the rotated identifier
+                memos.append((build_memo(code, curt, A.mid_of(rng.randrange(1, 50)), text, ki, zb, nb, vk), rng.randrange(1, 4), code, curt, ki))
             stream = []
             for gs, src, code, curt, ki in memos:
                 order = list(range(len(gs)))
@@ -208,7 +219,20 @@ class C22(core.Check):
                 prev = c
             if rng.random() < 0.3:
                 batches.append([])
-            yield ("rx", authic, batches, "gen")
+            # entry points and life cycle: serviceAllRx / service() / serviceAllRxOnce (one datagram, one memo per call), close / reopen in between
+            ops = []
+            style = rng.random()
+            for b in batches:
+                if style < 0.2:          # the non-greedy entry point: one call per datagram, then calls that only drain
+                    ops += [("once", [x]) for x in b] or [("once", [])]
+                else:
+                    ops.append((rng.choice(["all", "all", "all", "svc", "once", "rxg"]), b))
+                if rng.random() < 0.12:
+                    ops += ["close", (rng.choice(["all", "once"]), [rng.choice(stream)] if stream and rng.random() < 0.6 else []), "reopen"]
+            if style < 0.35:
+                ops += [("once", [])] * rng.randrange(1, 5) + [("all", [])]
+            flavor = rng.choice(["memoer", "memoer", "memoer", "auth", "udp", "uxd"])
+            yield ("rx", authic, ops, "gen", flavor)
 
     # ---- running
     def _run(self, case):
@@ -216,104 +240,194 @@ class C22(core.Check):
         if k not in self._tab:
             if len(self._tab) > 20000:
                 self._tab.clear()
-            _, authic, batches, _ = case
-            self._tab[k] = A.run_rx(authic, batches)
+            authic, ops, flavor = case[1], case[2], (case[4] if len(case) > 4 else "memoer")
+            self._tab[k] = A.run_rx(authic, ops, flavor)
         return self._tab[k]
 
     def run_impl(self, case):
         return self._run(case)[0]
 
     def request(self, case):
-        _, authic, batches, _ = case
+        authic = case[1]
         vtab = self._run(case)[1]
-        return ("rx", ("authic", bool(authic)), ("vtab",) + tuple(vtab), ("batches",) + tuple(tuple((bytes(g), s) for g, s in b) for b in batches))
+        ops = []
+        for op in A.norm_ops(case[2]):
+            if isinstance(op, str):
+                ops.append(op)
+            else:
+                ops.append((op[0] if op[0] in ("once", "rxg") else "all", tuple((bytes(g), s) for g, s in op[1])))
+        return ("rx", ("authic", bool(authic))) + tuple(vtab) + (("batches",) + tuple(ops),)
 
     # ---- the property
     def oracle(self, case, obs):
-        _, authic, batches, _ = case
+        try:
+            return self._oracle(case, obs)
+        except Exception as ex:       # an observation this predicate cannot account for is a violation, never a crash
+            return ["observation-not-accountable:" + type(ex).__name__]
+
+    def _oracle(self, case, obs):
+        authic = case[1]
+        ops = [op for op in A.norm_ops(case[2])]
         bad = []
         kp = A._kp()
         seen = []
-        for b, o in zip(batches, obs):
+        extra = [o for o in obs if o and isinstance(o[0], str) and o[0] not in ("escape",)]
+        if extra:
+            return sorted({o[0] for o in extra})
+        it = iter(obs)
+        nsvc = 0
+        opened, qlen = True, 0
+        for op in ops:
+            if isinstance(op, str):
+                opened = (op == "reopen")
+                continue
+            nsvc += 1
+            o = next(it, None)
+            if o is None:
+                bad.append("observation-shape")
+                return bad
             if o[0] == "escape":
                 bad.append("receive-servicing-raised:" + o[1])
                 return bad
-            seen += [A.ref_parse(g) for g, _s in b]
+            seen += [A.ref_parse(g) for g, _s in op[1]]
             parsed = [p for p in seen if p]
             delivered, entries = o[0][1:], o[1][1:]
+            qnow = o[2][1]
+            if not opened and qnow != qlen + len(op[1]):
+                bad.append("datagram-taken-while-closed")
+            if opened and op[0] == "once" and qnow < qlen + len(op[1]) - 1:
+                bad.append("once-took-more-than-one-datagram")
+            qlen = qnow
+            if op[0] == "once" and len(delivered) > 1:
+                bad.append("once-delivered-more-than-one-memo")
+            if op[0] == "rxg" and delivered:
+                bad.append("memo-in-inbox-without-servicing-memos")
             for e in entries:
                 if not any(p["mid"].encode() == e[0] for p in parsed):
                     bad.append("state-from-malformed-datagram")
-            if authic:
-                for text, _src, vid in delivered:
-                    if vid is None:
-                        bad.append("unsigned-memo-delivered-when-signed-required")
+            for text, _src, vid in delivered:
+                if authic and vid is None:
+                    bad.append("unsigned-memo-delivered-when-signed-required")
+                    continue
+                vids = [vid.decode()] if vid is not None else None
+                ok = False
+                for z in parsed:
+                    if not z["zeroth"]:
                         continue
-                    vid = vid.decode()
-                    ok = False
-                    for z in parsed:
-                        if z["zeroth"] and z["signed"] and z["vid"] == vid and A.ref_verify(kp, vid, z["sig"], z["fore"]) == "ok":
-                            parts = [[z["body"]]]
-                            for gn in range(1, z["num"]):
-                                if gn > 4096:
-                                    break
-                                parts.append(list({p["body"] for p in parsed if not p["zeroth"] and p["signed"] and p["mid"] == z["mid"]
-                                                   and p["num"] == gn and A.ref_verify(kp, vid, p["sig"], p["fore"]) == "ok"}))
-                                if not parts[-1]:
-                                    break
-                            else:
-                                if z["num"] >= 1 and A.can_assemble(bytes(text), parts):
-                                    ok = True
-                                    break
-                            if z["num"] == 0 and bytes(text) == b"":
-                                ok = True
-                                break
-                    if not ok:
-                        bad.append("delivered-memo-not-covered-by-valid-signatures")
-        if len(obs) != len(batches):
+                    if authic and not (z["signed"] and z["vid"] == vids[0]):
+                        continue
+                    cand = vids if vids is not None else sorted({q["vid"] for q in parsed if q["zeroth"] and q["signed"] and q["mid"] == z["mid"]})
+
+                    def good(p):
+                        if not p["signed"]:
+                            return not authic
+                        return any(A.ref_verify(kp, v, p["sig"], p["fore"]) == "ok" for v in ([p["vid"]] if p["zeroth"] else cand))
+                    zs = [q for q in parsed if q["zeroth"] and q["mid"] == z["mid"] and q["num"] == z["num"] and good(q)]
+                    zs0 = zs + [q for q in parsed if not q["zeroth"] and q["mid"] == z["mid"] and q["num"] == 0 and good(q)]   # a later-code gram numbered 0
+                    if not zs:
+                        continue
+                    if z["num"] == 0:
+                        if bytes(text) == b"":
+                            ok = True
+                            break
+                        continue
+                    parts = [list({q["body"] for q in zs0})]
+                    for gn in range(1, z["num"]):
+                        if gn > 4096:
+                            parts = None
+                            break
+                        opts = {p["body"] for p in parsed if not p["zeroth"] and p["mid"] == z["mid"] and p["num"] == gn and good(p)}
+                        if gn == 0:
+                            pass
+                        if not opts:
+                            parts = None
+                            break
+                        parts.append(list(opts))
+                    if parts is not None and A.can_assemble(bytes(text), parts):
+                        ok = True
+                        break
+                if not ok:
+                    bad.append("delivered-memo-not-covered-by-valid-signatures" if authic else "delivered-memo-not-assembled-from-received-grams")
+        if len(obs) != nsvc:
             bad.append("observation-shape")
         return bad
 
     def nontrivial(self, case, obs):
-        return case[3] != "genuine" and any(b for b in case[2])
+        try:
+            return self._nontrivial(case, obs)
+        except Exception:
+            return True
+
+    def _nontrivial(self, case, obs):
+        return case[3] != "genuine" and any(not isinstance(op, str) and op[1] for op in A.norm_ops(case[2]))
 
     def features(self, case, obs):
-        f = ["authic" if case[1] else "open", f"batches={len(case[2])}"]
-        n = sum(len(b) for b in case[2])
+        try:
+            return self._features(case, obs)
+        except Exception as ex:
+            return ["features-failed:" + type(ex).__name__]
+
+    def _features(self, case, obs):
+        ops = A.norm_ops(case[2])
+        svc = [op for op in ops if not isinstance(op, str)]
+        f = ["authic" if case[1] else "open", f"calls~{min(len(svc), 9) // 3 * 3}", "flavor:" + (case[4] if len(case) > 4 else "memoer")]
+        f += sorted({"entry:" + op[0] for op in svc}) + (["close/reopen"] if any(isinstance(op, str) for op in ops) else [])
+        n = sum(len(op[1]) for op in svc)
         f.append(f"datagrams~{min(n, 12) // 3 * 3}")
-        und = sum(1 for b in case[2] for g, _ in b if A.ref_parse(g) is None)
+        und = sum(1 for op in svc for g, _ in op[1] if A.ref_parse(g) is None)
+        if any(len(o) > 3 and o[0] != "escape" and o[3][1] for o in obs if isinstance(o[0], tuple)):
+            f.append("memo-pending-in-rxms")
         f.append("unparseable=" + ("0" if und == 0 else "1+" ))
-        if any(o[0] == "escape" for o in obs):
-            f.append("escape")
+        if any(isinstance(o[0], str) for o in obs):
+            f += sorted({o[0] for o in obs if isinstance(o[0], str)})
         else:
             f.append(f"delivered={min(sum(len(o[0]) - 1 for o in obs), 3)}")
             f.append(f"left-entries={min(len(obs[-1][1]) - 1, 3)}" if obs else "no-batches")
-        f.append(f"verify-calls~{min(len(self._run(case)[1]), 8) // 2 * 2}")
-        for o in {x[3] for x in self._run(case)[1]}:
-            f.append("verify:" + o)
+        parts = {x[0]: x[1:] for x in self._run(case)[1]}
+        f.append(f"verify-sigs~{min(len(parts['dsgn']), 8) // 2 * 2}")
+        keepv = {v for v, _q in parts["keep"]}
+        rot = A.key(A.ROTATED[0])["vid"].encode()
+        for vid, r in parts["dvid"]:
+            if r[0] == "ok":
+                f.append("vid:" + chr(r[2]) + (":rotated" if vid == rot else (":in-keep" if vid in keepv else ":not-in-keep")))
+            else:
+                f.append("vid-undecodable:" + r[1])
+        for _s, r in parts["dsgn"]:
+            if r[0] != "ok":
+                f.append("sig-undecodable:" + r[1])
+        for _k, _s, _m, ok in parts["chk"]:
+            f.append("ed25519:" + ("ok" if ok else "fail"))
         return f
 
     def shrink(self, case):
-        _, authic, batches, note = case
-        for i in range(len(batches)):
-            if len(batches) > 1:
-                yield ("rx", authic, batches[:i] + batches[i + 1:], note)
-            for j in range(len(batches[i])):
-                yield ("rx", authic, batches[:i] + [batches[i][:j] + batches[i][j + 1:]] + batches[i + 1:], note)
-        if len(batches) > 1:
-            yield ("rx", authic, [sum(batches, [])], note)
+        authic, note, flavor = case[1], case[3], (case[4] if len(case) > 4 else "memoer")
+        ops = A.norm_ops(case[2])
+        mk = lambda o: ("rx", authic, o, note, flavor)
+        for i in range(len(ops)):
+            if len(ops) > 1:
+                yield mk(ops[:i] + ops[i + 1:])
+            if not isinstance(ops[i], str):
+                for j in range(len(ops[i][1])):
+                    yield mk(ops[:i] + [(ops[i][0], ops[i][1][:j] + ops[i][1][j + 1:])] + ops[i + 1:])
+                if ops[i][0] != "all":
+                    yield mk(ops[:i] + [("all", ops[i][1])] + ops[i + 1:])
+        if flavor != "memoer":
+            yield ("rx", authic, ops, note, "memoer")
 
     def mutate(self, rng, case):
-        _, authic, batches, note = case
+        authic, note, flavor = case[1], case[3], (case[4] if len(case) > 4 else "memoer")
+        ops = A.norm_ops(case[2])
         out = list(self.shrink(case))
-        out.append(("rx", not authic, batches, note))
-        for i, b in enumerate(batches):
-            for j, (g, s) in enumerate(b):
+        out.append(("rx", not authic, ops, note, flavor))
+        for i, op in enumerate(ops):
+            if isinstance(op, str):
+                continue
+            for j, (g, s) in enumerate(op[1]):
                 if g:
                     m = bytearray(g)
                     p = rng.randrange(len(m))
                     m[p] ^= 1 << rng.randrange(8)
-                    out.append(("rx", authic, batches[:i] + [b[:j] + [(bytes(m), s)] + b[j + 1:]] + batches[i + 1:], note))
+                    out.append(("rx", authic, ops[:i] + [(op[0], op[1][:j] + [(bytes(m), s)] + op[1][j + 1:])] + ops[i + 1:], note, flavor))
         return out
 
 
